@@ -17,7 +17,7 @@ pub const RULE: &str = "functions closed after capture: (a) random typed functio
 pub const ASSUMPTIONS: &[&str] = &[
     "equivalence is sampled on the generated argument tuples",
     "when both the original and the reloaded call return functions, those are only compared for being functions",
-    "self-recursive functions and functions reading inputs / #name are not closed after capture and are not generated",
+    "self-recursive functions and functions reading #name are not closed after capture and are not generated; `inputs.x` is captured like any other free name and is generated",
 ];
 
 const POOL_TEXT: &str = "mk = k => x => x * k\ncf1 = x => x + n1\ncf2 = mk(4)\n";
@@ -84,6 +84,8 @@ fn session() -> Result<Sess, String> {
     for (n, v) in pool() {
         sess.bind(n, &v);
     }
+    // the defining program's inputs record: a function that reads `inputs.x` captures it
+    sess.set_inputs(&[("n".into(), num(4.0)), ("k".into(), MV::Rec(vec![("base".into(), num(41.0))]))]);
     Ok(sess)
 }
 
@@ -341,7 +343,14 @@ pub fn strategy() -> BoxedStrategy<Case> {
     (prop::collection::vec(any::<u16>(), 0..160), prop::collection::vec(prop::collection::vec(arg_value(), 3..=3), 3..=4), any::<bool>(), prop::bool::weighted(0.04))
         .prop_map(|(tape, argpool, full_parens, cli)| {
             let sc = scope();
-            let func = typed::gen_e(&mut Tape::new(&tape), &sc, Ty::F, 5);
+            let mut func = typed::gen_e(&mut Tape::new(&tape), &sc, Ty::F, 5);
+            // one in six lambda literals also reads the inputs record it is defined under
+            if tape.first().map(|x| x % 6 == 0).unwrap_or(false)
+                && let E::Lambda(ps, body) = &func
+            {
+                let reads = E::List(vec![(**body).clone(), E::Field(Box::new(E::Id("inputs".into())), "n".into()), E::Field(Box::new(E::Field(Box::new(E::Id("inputs".into())), "k".into())), "base".into())]);
+                func = E::Lambda(ps.clone(), Box::new(reads));
+            }
             let k = arity_of(&func).min(3);
             let args: Vec<Vec<MV>> = argpool.into_iter().map(|a| a.into_iter().take(k).collect()).collect();
             Case { func, args, full_parens, cli }
